@@ -42,3 +42,39 @@ pub fn sendstream_reset_native(written: u8, other_data_sent: u16) -> u32 {
     assert!(pending.reset_stream.len() == 1);
     1
 }
+
+/// Native replay body for the E2 query `e2_received_ack_of` (C05): an ACK for data of a stream that
+/// was reset in the meantime must not release send-window share a second time (`reset` already
+/// returned the stream's unacknowledged bytes); an ACK for a live stream releases exactly its range.
+pub fn received_ack_of_native(reset: bool) -> u32 {
+    use super::state::verif::{mk_streams, Scalars};
+    let mut st = mk_streams(&Scalars { max: [10, 10], max_data: 1 << 20, send_window: 1 << 20, data_sent: 500, unacked_data: 500, ..Default::default() });
+    let mut pending = Retransmits::default();
+    let conn_state = crate::connection::State::Established;
+    let id = {
+        let mut s = Streams { state: &mut st, conn_state: &conn_state };
+        s.open(Dir::Uni).expect("stream credit available")
+    };
+    st.send.get_mut(&id).map(get_or_insert_send(VarInt::from_u32(1 << 16)));
+    {
+        let mut ss = SendStream { id, state: &mut st, pending: &mut pending, conn_state: &conn_state };
+        assert!(ss.write(&[7u8; 100]).unwrap_or(0) == 100);
+    }
+    assert!(st.unacked_data == 600);
+    // the data goes out in one frame
+    let meta = frame::StreamMeta { id, offsets: 0..100, fin: false };
+    if reset {
+        let mut ss = SendStream { id, state: &mut st, pending: &mut pending, conn_state: &conn_state };
+        ss.reset(VarInt::from_u32(9)).expect("reset succeeds");
+    }
+    let before = st.unacked_data;
+    assert!(before == if reset { 500 } else { 600 });
+    st.received_ack_of(meta);
+    if reset {
+        assert!(st.unacked_data == before, "a late ACK for a reset stream released send window a second time");
+        2
+    } else {
+        assert!(st.unacked_data == before - 100, "an ACK must release exactly the acknowledged range");
+        1
+    }
+}
